@@ -285,9 +285,7 @@ class NpCalls:
             if m is not None and m.deg != (0, 0, 0):
                 interp.emit('transcendental_of_dimensional', node, fn=name, mono=m)
             interp.emit('transcendental', node, fn=name, arg=x)
-            nm = None
-            if m is not None and m.deg == (0, 0, 0):
-                nm = Mono(1.0, {f'{name}({m.text()})': 1})
+            nm = Mono(1.0, {f'{name}({m.text() if m is not None else "?"})': 1})
             return out.w(mono=nm, logof=x if name == 'log' else None, geo=None)
         if name == 'sign':
             return out.w(mono=num(1.0).wrap('sign'), signof=x)
